@@ -236,6 +236,18 @@ def check_mappings(ctx, vlq, m):
     if e2 != e:
         ctx.violation('C10:roundtrip_mappings_str', {'fn': 'roundtrip_mappings', 'arg': m},
                       'encode(decode(%r)) = %r' % (e, e2))
+    # the decoded structure belongs to the caller: scribbling on it must not show in a later decode
+    # (the contract on decode_mappings compares every result with the reference decoder)
+    for line in d:
+        if isinstance(line, list):
+            line.append((7, 7, 7, 7))
+    if isinstance(d, list):
+        d.append([(9,)])
+    d2 = vlq.decode_mappings(e)
+    ctx.hit('decode_after_caller_edit')
+    if [[tuple(seg) for seg in line] for line in d2] != [[tuple(seg) for seg in line] for line in m]:
+        ctx.violation('C10:decode_result_shared_with_earlier_call', {'fn': 'roundtrip_mappings', 'arg': m},
+                      'decode_mappings(%r) after the caller edited the result of an earlier identical call gave %r' % (e, d2))
 
 
 def rand_int(rng):
